@@ -1,14 +1,104 @@
 import Crv.Driver.Util
-/-! Line-protocol driver for stream `disk` (stub: every op is `bad-op` until the model is wired in). -/
-namespace Crv.Driver.Disk
+import Crv.Disk
+import Crv.Generated.Paths
+/-!
+Line-protocol driver for stream `disk` (C12).
 
-/-- Model state carried between the lines of this stream. -/
+  scn <first|refresh> <verify|verify_log|none> old=<serials|-> new=<serials|-> sig=<true|false> origin=<doc|broken:j|down>
+        → hits=<names of the hook hits of a complete run, in order>
+  crash <k> p=<serials>     crash at the k-th hook hit (k ≥ 1; 0 = before the operation), then restart
+        → img=<live:0|1,tmpf:n,tmpd:n> loaded=<bool> probes=<R|G|N per serial> ls=<names after restart>
+  full p=<serials>          complete run, then restart          → same shape
+  allowed p=<serials> obs=<loaded>:<verdicts>   is the observation the outcome of some crash point?  → true|false
+Names: the location's store prints as `ID`, temp names never survive a restart.
+-/
+namespace Crv.Driver.Disk
+open Crv.Paths Crv.Disk Crv.Generated
+
 structure State where
-  dummy : Unit := ()
+  sc : Option Scn := none
+  first : Bool := false
+  fs0 : Fs := []
 
 def init : State := {}
 
-/-- One line (already split into words, stream tag removed) → new state and the answer line. -/
-def step (s : State) (ws : List String) : State × String := (s, "bad-op")
+def theId : Name := [73, 68]   -- "ID" (any name that does not match the temp pattern)
+
+def parseNats (s : String) : Option (List Nat) :=
+  if s = "-" then some [] else mapOpt (fun (x : String) => x.toNat?) (s.splitOn ",")
+
+def field (k : String) (w : String) : Option String :=
+  if w.startsWith (k ++ "=") then some ((w.drop (k.length + 1)).toString) else none
+
+def steps (st : State) (sc : Scn) : List Step :=
+  if st.first then loadSteps pathFacts sc else refreshSteps pathFacts sc
+
+def nameStr (n : Name) : String := if n = theId then "ID" else toHex n
+
+def sortStrings (l : List String) : List String :=
+  l.foldl (fun acc x => (acc.takeWhile (· < x)) ++ x :: acc.dropWhile (· < x)) []
+
+def verdictStr : Verdict → String
+  | .revoked => "R" | .good => "G" | .notLoaded => "N"
+
+def outcome (fs' : Fs) (ps : List Nat) : String :=
+  let l := loaded fs' theId
+  "loaded=" ++ (if l then "true" else "false") ++ " probes=" ++ String.join (ps.map (fun p => verdictStr (probe fs' theId p)))
+
+def describe (img : Fs) (ps : List Nat) : String :=
+  let fs' := restart pathFacts theId img
+  let tmpf := (img.filter (fun e => matchesTemp pathFacts e.1 && e.2 == .file)).length
+  let tmpd := (img.filter (fun e => matchesTemp pathFacts e.1 && e.2 != .file)).length
+  let live := if (img.get theId).isSome then "1" else "0"
+  "img=live:" ++ live ++ ",tmpf:" ++ toString tmpf ++ ",tmpd:" ++ toString tmpd ++ " " ++ outcome fs' ps ++
+    " ls=" ++ ",".intercalate (sortStrings (fs'.map (fun e => nameStr e.1)))
+
+def step (st : State) (ws : List String) : State × String :=
+  match ws with
+  | ["scn", kind, mode, o, n, sg, org] =>
+    match field "old" o, field "new" n, field "sig" sg, field "origin" org with
+    | some o, some n, some sg, some org =>
+      match parseNats o, parseNats n, parseBool sg with
+      | some olds, some news, some sigOk =>
+        let newDoc : Doc := { tag := 2, serials := news, sigOk := sigOk }
+        let origin? : Option Origin :=
+          match org.splitOn ":" with
+          | ["doc"] => some (.doc newDoc)
+          | ["down"] => some .down
+          | ["broken", j] => j.toNat?.map (fun j => Origin.broken newDoc j)
+          | _ => none
+        let modeOk := mode = "verify" ∨ mode = "verify_log" ∨ mode = "none"
+        match origin?, (kind = "first" ∨ kind = "refresh") && modeOk with
+        | some origin, true =>
+          let first := kind = "first"
+          let sc : Scn := { disk := true, sigChecked := mode != "none", sigRequired := mode = "verify", origin := origin,
+                            id := theId, hasLoc := true, loc := 0,
+                            t := tmpName pathFacts 1, s := tmpName pathFacts 2, a := tmpName pathFacts 3 }
+          let oldDoc : Doc := { tag := 1, serials := olds, sigOk := true }
+          let fs0 : Fs := if first then [(theId, .dir (DbImage.put [] .locations 0))]
+                          else [(theId, .dir (fullImage 0 oldDoc (mode != "none")))]
+          let st' : State := { sc := some sc, first := first, fs0 := fs0 }
+          (st', "hits=" ++ ",".intercalate (hitNames (steps st' sc)))
+        | _, _ => (st, "bad-op")
+      | _, _, _ => (st, "bad-op")
+    | _, _, _, _ => (st, "bad-op")
+  | ["crash", k, p] =>
+    match st.sc, k.toNat?, (field "p" p).bind parseNats with
+    | some sc, some k, some ps => (st, describe (run (uptoHit (steps st sc) k) st.fs0) ps)
+    | _, _, _ => (st, "bad-op")
+  | ["full", p] =>
+    match st.sc, (field "p" p).bind parseNats with
+    | some sc, some ps => (st, describe (run (steps st sc) st.fs0) ps)
+    | _, _ => (st, "bad-op")
+  | ["allowed", p, obs] =>
+    match st.sc, (field "p" p).bind parseNats, field "obs" obs with
+    | some sc, some ps, some obs =>
+      let all := steps st sc
+      let outs := (List.range (all.length + 1)).map (fun k =>
+        let fs' := restart pathFacts theId (crashAt k all st.fs0)
+        (if loaded fs' theId then "true" else "false") ++ ":" ++ String.join (ps.map (fun p => verdictStr (probe fs' theId p))))
+      (st, if outs.contains obs then "true" else "false")
+    | _, _, _ => (st, "bad-op")
+  | _ => (st, "bad-op")
 
 end Crv.Driver.Disk
